@@ -7,6 +7,21 @@ pub mod wal_entry;
 pub mod wal_handle;
 pub mod wal_recovery;
 
+/// Log id encoded in the name of a WAL log (`wal-00012.log`) or of an archive
+/// (`wal-00012-<start>-<end>.wal.zst`).
+pub(crate) fn log_id_of(path: &std::path::Path) -> Option<u64> {
+    let name = path.file_name()?.to_str()?;
+    let rest = name.strip_prefix("wal-")?;
+    let digits = rest.split(|c: char| !c.is_ascii_digit()).next()?;
+    digits.parse().ok()
+}
+
+/// Orders WAL logs / archives by log id. The id is zero-padded to five digits only,
+/// so plain name order stops being log order at id 100000.
+pub(crate) fn sort_by_log_id(files: &mut [std::path::PathBuf]) {
+    files.sort_by(|a, b| (log_id_of(a), a).cmp(&(log_id_of(b), b)));
+}
+
 #[cfg(test)]
 mod inner_wal_writer_test;
 #[cfg(test)]
